@@ -1161,10 +1161,75 @@ def oracle(ctx, deep):
         f = check_case(tag, i)
         if f is not None and sum(1 for x in fails if x.signature == f.signature) < 3:
             fails.append(f)
+    return fails + deviant_e2e(ctx, deep)
+
+
+_INTEG_NAMES = {1: (b'hmac(md5)', 128), 2: (b'hmac(sha1)', 160), 12: (b'hmac(sha256)', 256), 14: (b'hmac(sha512)', 512)}
+
+
+def installed_within_offers(ctx, label, actions, conf, seed):
+    """End to end through main_loop, whatever the peer answers (an authenticated peer that rewrites its payloads, a peer
+    configured differently): the algorithms of every IPsec SA in an endpoint's kernel are transforms of one of ITS OWN
+    configured CHILD_SA proposals, and the algorithms of every IKE_SA it holds with keys are transforms of ITS OWN IKE
+    proposal (one transform per type)."""
+    from sim.scenarios import Pair
+    from sim.world import LoopEscape
+    import xfrm
+    rep = {'kind': 'e2e', 'label': label, 'actions': actions, 'conf': conf, 'seed': seed}
+    with Pair(seed=seed, **conf) as p:
+        def look(step):
+            for n in 'AB':
+                ep = p.ep(n)
+                confs = list(ep.configuration.ike_configurations.values())
+                own_child = [(int(t.type), int(t.id), t.keylen) for c in confs for pr in c.protect
+                             for t in pr.proposal.transforms]
+                own_ike = [(int(t.type), int(t.id), t.keylen) for c in confs for t in c.proposal.transforms]
+                for key, sa in ep.kernel.sad.items():
+                    ctx.count('e2e-installed-sa')
+                    for code, (name, klen, _k) in sa['algs'].items():
+                        if code == xfrm.XFRMA_ALG_CRYPT:
+                            ok = name == b'cbc(aes)' and (1, 12, klen) in own_child
+                        else:
+                            ok = any(_INTEG_NAMES.get(i) == (name, klen) and (3, i, None) in own_child
+                                     for i in _INTEG_NAMES)
+                        if not ok:
+                            return Failure('property', 'nego:installed-algorithm-not-offered',
+                                           f'{label}: after step {step} endpoint {n} holds IPsec SA {key[2].hex()} with '
+                                           f'{name.decode()}/{klen}, which is in none of its own CHILD_SA proposals '
+                                           f'{sorted(set(own_child))}', rep)
+                for x in ep.controller.ike_sas:
+                    if x.chosen_proposal is not None and x.my_crypto is not None:
+                        ts_ = [(int(t.type), int(t.id), t.keylen) for t in x.chosen_proposal.transforms]
+                        if any(t not in own_ike for t in ts_) or len({t[0] for t in ts_}) != len(ts_):
+                            return Failure('property', 'nego:ike-sa-algorithm-not-offered',
+                                           f'{label}: after step {step} endpoint {n} holds an IKE_SA with transforms {ts_}; '
+                                           f'its own proposal is {own_ike}', rep)
+            return None
+        try:
+            for i, a in enumerate(list(actions) + [['deliver', 0]] * 6):
+                p.do(a)
+                f = look(i)
+                if f is not None:
+                    return [f]
+        except LoopEscape as ex:
+            return [Failure('property', 'loop:escaped-exception', f'{label}: {ex.exc!r}', rep)]
+    ctx.case(['e2e', label], nontrivial=True)
+    return []
+
+
+def deviant_e2e(ctx, deep):
+    from props import hdl
+    fails = []
+    for label, acts, conf, seed, skip in hdl.deviant_set(deep, ctx.seed):
+        fails += installed_within_offers(ctx, label, acts, conf, seed)
+        if len(fails) > 2:
+            break
     return fails
 
 
 def replay(ctx, obj):
+    if obj.get('kind') == 'e2e':
+        return installed_within_offers(ctx, obj['label'], obj['actions'], obj['conf'], obj['seed'])
     if obj.get('kind') != 'case':
         return []
 
